@@ -111,7 +111,9 @@ type ReqSpec struct {
 	// Abort: after it has set an explicit status and written its answer the
 	// handler panics with http.ErrAbortHandler.
 	Abort bool `json:"abort,omitempty"`
-	Logs  int  `json:"logs"` // records written through the context logger
+	// PreLogger: the request's context already carries a slogutil logger.
+	PreLogger bool `json:"pre_logger,omitempty"`
+	Logs      int  `json:"logs"` // records written through the context logger
 	// Hijack: 1 the handler takes over the connection through
 	// w.(http.Hijacker), 2 through http.NewResponseController(w), and writes
 	// its answer to the connection itself (protocol upgrades, proxies).
@@ -520,6 +522,8 @@ func checkBatch(c BatchCase) error {
 		}
 	}))
 
+	var foreignRecs []logRec
+	foreign := slog.New(&recHandler{mu: &mu, recs: &foreignRecs, min: -100})
 	recorders := make([]*sink, n)
 	startEnabled, finEnabled := make([]bool, n), make([]bool, n)
 	started := make([]bool, n)
@@ -541,6 +545,12 @@ func checkBatch(c BatchCase) error {
 		req.Header.Set("X-Idx", "i"+strconv.Itoa(i))
 		req.Header.Set("X-Other", "o"+id)
 		req = req.WithContext(context.WithValue(req.Context(), ctxKey{}, id))
+		if c.Reqs[i].PreLogger {
+			// The request already carries a logger of the application (set by
+			// the server's BaseContext or an earlier middleware); the log
+			// middleware still gives the handler its own, request-tagged one.
+			req = req.WithContext(slogutil.ContextWithLogger(req.Context(), foreign))
+		}
 		rr := newSink()
 		recorders[i] = rr
 		go func() {
@@ -658,6 +668,9 @@ func checkBatch(c BatchCase) error {
 	// Log records.
 	mu.Lock()
 	defer mu.Unlock()
+	if len(foreignRecs) > 0 {
+		return fmt.Errorf("%d records went to a logger that the request context carried before it reached the middleware (first: %q %v): the handler must get the middleware's request-tagged logger", len(foreignRecs), foreignRecs[0].msg, foreignRecs[0].attrs)
+	}
 	type counts struct{ started, finished, inside int }
 	per := make([]counts, n)
 	for _, lr := range recs {
@@ -774,18 +787,19 @@ var batchProp = vp.Register(vp.Prop[BatchCase]{
 		var acts []Act
 		for i := 0; i < n; i++ {
 			c.Reqs = append(c.Reqs, ReqSpec{
-				Pre1xx:  rapid.SliceOfN(rapid.SampledFrom([]int{100, 102, 103}), 0, 2).Draw(t, "pre1xx"),
-				Code:    rapid.SampledFrom([]int{0, 0, 200, 201, 204, 301, 400, 404, 418, 500, 503, 599}).Draw(t, "code"),
-				Header:  rapid.Bool().Draw(t, "header"),
-				NoBody:  rapid.IntRange(0, 4).Draw(t, "nobody") == 0,
-				BodyVia: rapid.SampledFrom([]int{0, 0, 1, 1, 2, 3}).Draw(t, "bodyvia"),
-				Abort:   rapid.IntRange(0, 4).Draw(t, "abort") == 0,
-				Logs:    rapid.IntRange(0, 2).Draw(t, "logs"),
-				Hijack:  rapid.SampledFrom([]int{0, 0, 0, 1, 2}).Draw(t, "hijack"),
-				NoRaddr: rapid.IntRange(0, 3).Draw(t, "noraddr") == 0,
-				Trailer: rapid.IntRange(0, 3).Draw(t, "trailer") == 0,
-				NoURI:   rapid.IntRange(0, 5).Draw(t, "nouri") == 0,
-				Flushes: rapid.SampledFrom([]int{0, 0, 1, 3}).Draw(t, "flushes"),
+				Pre1xx:    rapid.SliceOfN(rapid.SampledFrom([]int{100, 102, 103}), 0, 2).Draw(t, "pre1xx"),
+				Code:      rapid.SampledFrom([]int{0, 0, 200, 201, 204, 301, 400, 404, 418, 500, 503, 599}).Draw(t, "code"),
+				Header:    rapid.Bool().Draw(t, "header"),
+				NoBody:    rapid.IntRange(0, 4).Draw(t, "nobody") == 0,
+				BodyVia:   rapid.SampledFrom([]int{0, 0, 1, 1, 2, 3}).Draw(t, "bodyvia"),
+				Abort:     rapid.IntRange(0, 4).Draw(t, "abort") == 0,
+				PreLogger: rapid.IntRange(0, 3).Draw(t, "prelogger") == 0,
+				Logs:      rapid.IntRange(0, 2).Draw(t, "logs"),
+				Hijack:    rapid.SampledFrom([]int{0, 0, 0, 1, 2}).Draw(t, "hijack"),
+				NoRaddr:   rapid.IntRange(0, 3).Draw(t, "noraddr") == 0,
+				Trailer:   rapid.IntRange(0, 3).Draw(t, "trailer") == 0,
+				NoURI:     rapid.IntRange(0, 5).Draw(t, "nouri") == 0,
+				Flushes:   rapid.SampledFrom([]int{0, 0, 1, 3}).Draw(t, "flushes"),
 			})
 			acts = append(acts, Act{Kind: "start", Req: i}, Act{Kind: "release", Req: i})
 		}
